@@ -2,6 +2,7 @@ package tparsetime
 
 import (
 	"fmt"
+	"math"
 	"strconv"
 	"strings"
 	"time"
@@ -61,7 +62,7 @@ func parseRFC3339Timestamp(timeStr string, timezoneCache map[string]*time.Locati
 	} else {
 		location = time.Local
 	}
-	return time.Date(year, time.Month(month), date, hour, min, sec, int(frac*1000000000.0), location), nil
+	return time.Date(year, time.Month(month), date, hour, min, sec, int(math.Round(frac*1000000000.0)), location), nil
 }
 
 // splitFractionAndTimezone splits e.g. ".123+07:00" to .123 and +07:00
